@@ -29,6 +29,7 @@ func NewController(transactions transactionstore.Store, proposals proposalstore.
 	c := controller.NewController("transaction")
 	c.Watch(&Watcher{
 		transactions: transactions,
+		proposals:    proposals,
 	})
 	c.Watch(&ProposalWatcher{
 		proposals: proposals,
